@@ -2096,10 +2096,10 @@ class ktensor:
 
         # Check that each multiplicand is the right size.
         for i in range(dims.size):
-            if vector[vidx[i]].squeeze().shape != (self.shape[dims[i]],):
+            if vector[vidx[i]].reshape(-1).shape != (self.shape[dims[i]],):
                 assert False, (
                     f"Multiplicand is wrong size. Vector[{i}] was "
-                    f"{vector[vidx[i]].squeeze().shape}"
+                    f"{vector[vidx[i]].reshape(-1).shape}"
                     f", but expected {(self.shape[dims[i]],)}."
                 )
 
@@ -2110,7 +2110,7 @@ class ktensor:
         new_weights = self.weights.copy()
         for i, dim in enumerate(dims):
             new_weights = new_weights * (
-                self.factor_matrices[dim].T @ vector[vidx[i]].squeeze()
+                self.factor_matrices[dim].T @ vector[vidx[i]].reshape(-1)
             )
 
         # Create final result
